@@ -76,7 +76,7 @@ func PanicSite(stack string) string {
 			continue
 		}
 		if strings.HasPrefix(l, "github.com/gcash/bchutil") {
-			if i := strings.Index(l, "("); i > 0 {
+			if i := strings.LastIndex(l, "("); i > 0 {
 				// strip arguments
 				j := strings.LastIndex(l[:i], "/")
 				return l[j+1 : i]
